@@ -30,7 +30,7 @@ FRINGE = ['rows_unequal_1', 'rows_unequal_longer', 'rows_unequal_shorter', 'dtyp
 
 
 def gen_case(rng, tier, avoid):
-    profile = 'A' if rng.random() < 0.5 else 'B'
+    profile = rng.choice(['A', 'A', 'B', 'B', 'C'])
     spec = gen.Spec(rng)
     gen.simple_file(rng, spec=spec, mrl=gen.record_length(rng, small=0.4), n_lf=1, max_width=4, frames=rng.choice([1, 2]))
     lfi = spec.lfs[0]
@@ -44,6 +44,26 @@ def gen_case(rng, tier, avoid):
         kind = gen.pick(rng, ['inline', 'inline', 'dict', 'h5'])
         if kind != 'inline':
             ops, data = gen.externalize(ops, kind, rng)
+    elif profile == 'C':
+        # calls that are rejected (and caught by the user) before the write: the file must still equal the specification
+        from . import c20
+        params['fringe'] = 'rejected_calls'
+        for n in range(rng.choice([1, 2, 3])):
+            k = gen.pick(rng, c20.BAD_KINDS + ['schema'] * 4 + ['channel_with_data'] * 2)
+            if k == 'schema':
+                sb = c20.schema_bad(rng, lfi, n)
+                bop = sb[0] if sb else c20.bad_op(rng, 'bad_enum', lfi, spec, n)[0]
+            elif k == 'channel_with_data':
+                bop = c20.bad_channel_with_data(rng, lfi, n)
+            else:
+                bop = c20.bad_op(rng, k, lfi, spec, n)[0]
+            pos = rng.randint(3, len(ops))
+            ops.insert(pos, bop)
+            if bop['kind'] not in ('frame',) and isinstance(bop.get('name'), str) and rng.random() < 0.6:
+                # the user adds the object again, correctly
+                good = {'op': 'add', 'lf': lfi['lf'], 'kind': bop['kind'], 'h': 'redo%d' % n, 'name': bop['name'], 'kwargs': {}}
+                if bop['kind'] != 'channel':
+                    ops.insert(rng.randint(pos + 1, len(ops)), good)
     else:
         fr = gen.pick(rng, [f for f in FRINGE if f not in avoid])
         params['fringe'] = fr
@@ -172,6 +192,12 @@ def check_case(case, ex):
     fp0 = {'profile': Pm['profile'], 'fringe': fr, 'fault': None, 'source': Pm['source']}
     st = judge(sc, res, fp0)
     if st is None:
+        return {'violations': out, 'stats': stats}
+    if Pm['profile'] == 'C':
+        n_rej = sum(1 for s2 in res['steps'][:-1] if s2 and s2.get('out') == 'exc')
+        C.bump(stats['probes'], 'rejected_calls_before_write', n_rej)
+        stats['nontrivial'] = n_rej > 0
+        stats['state_sigs'].append('C|rej%d|%s' % (min(n_rej, 3), st['out']))
         return {'violations': out, 'stats': stats}
     if Pm['profile'] == 'B':
         built = all(s is None or s.get('out') != 'exc' for s in res['steps'][:-1])
